@@ -61,6 +61,19 @@ CLAIMS["C06"] = {
     "technique": "static analysis: effect/shape rules on packers, handler path analysis, conservation rules (complementary slices and filters) on splitters, registry-vs-schema agreement",
 }
 
+CLAIMS["C03"] = {
+    "decides": "TTX vocabulary agreement: every XML attribute a reader requires unconditionally is emitted by a writer of the same (or an imported sibling) module, and in modules with literal element names every element the reader dispatches on is emitted; every data parameter of XMLWriter reaches the stream through an escaper (CDATA split at ']]>'), escape covers & < > with '&' first and escapeattr the quote, nothing else writes the stream raw; fixed-point precision agrees between toXML, fromXML and the binary codec per class; split-dump src= handling mirrors between writer and reader; converter xmlRead/xmlWrite pairing; glyf component form tests agree between compile and toXML; tag<->XML-name mangling.",
+    "design_ref": "DESIGN.md §3.2 F7, F8, §4 C03",
+    "note": "Trusted: vocabulary extraction idioms listed in sa/rules/xmlvocab.py (keywords, tuple lists, dict literals, sstruct name loops); modules whose writers compute element names are not armed for elements (listed in evidence). Not decided: shortest-representation printing, whitespace normalisation, bitmap dump formats beyond vocabulary.",
+    "technique": "static analysis: writer/reader vocabulary extraction and set comparison, backward-slice must-pass-through of escapers, sibling constant agreement",
+}
+CLAIMS["C04"] = {
+    "decides": "cross-table stores made while compiling are covered by the target's dependencies (writer compiled first) and declared read-dependencies stay declared; container literals equal computed struct sizes/field offsets (12/16/44/20, searchRange item 16, checkSumAdjustment at 8..12, fontRevision 4..8, zeroed-window idiom at every head-checksum site); every round-up is (x+3)&~3 with NUL padding and matching offset advance; directory sorted after the count check; entry checksums from the stored bytes; master checksum formula and its WOFF2 twin agree; hhea/vhea recalc mirror; WOFF raw/compressed discriminator.",
+    "design_ref": "DESIGN.md §3.3 F10, §4 C04",
+    "note": "Trusted: sstruct parser in sa/fmt.py; alias resolution of ttFont['x'] in compile closures. Not decided: numeric correctness of bbox/maxp/extent recomputation, WOFF2 transform fidelity, TTC sharing results.",
+    "technique": "static analysis: effect analysis of compile closures vs. declared dependency order, constant folding of layout formats vs. literals, sibling normal-form comparison",
+}
+
 _PENDING = "check not built yet in this round (planned structural clauses in DESIGN.md §4); not claimed until its check exists"
 NOT_APPLICABLE = {
     "C05": "numeric equality of outlines/advances with independent rasterisers at every location: runtime values only; no structural clause that is a necessary condition and survives refactoring (DESIGN §4 C05)",
@@ -68,5 +81,5 @@ NOT_APPLICABLE = {
     "C14": "geometric equality through pen adapters over all call sequences: adapters may legally buffer/merge/re-emit calls, so no forwarding-shape rule is both necessary and refactoring-stable (DESIGN §4 C14)",
     "C18": "rendering equivalence of merged fonts: only weak structural facts (first-writer-wins cmap guard) exist, not enough for a necessary-condition clause (DESIGN §4 C18)",
 }
-for _p in ("C03", "C04", "C10", "C11", "C12", "C13", "C19"):
+for _p in ("C10", "C11", "C12", "C13", "C19"):
     NOT_APPLICABLE[_p] = _PENDING
